@@ -30,7 +30,12 @@ type replayer struct {
 	pkg     *types.Package
 	fail    string
 	cache   map[string]string
+	calls   int       // solver calls made for this replay
+	started time.Time // a replay that needs many model queries (huge slices in the model) is given up
 }
+
+// replaySpent: wall-clock time the counterexample replays of this run have taken (they are a service, not the verdict)
+var replaySpent time.Duration
 
 func writeReplay(p *Program, o *Obligation, dir, verif, repo string) (path string, confirmed bool) {
 	path = filepath.Join(dir, reBadName.ReplaceAllString(o.Name, "_")+".replay.txt")
@@ -56,6 +61,12 @@ func writeReplay(p *Program, o *Obligation, dir, verif, repo string) (path strin
 		fmt.Fprintf(&sb, "\nreplay: function %s not found\n", o.Fn)
 		return path, false
 	}
+	if replaySpent > 5*time.Minute {
+		fmt.Fprintf(&sb, "\nreplay skipped: the replays of this run have already taken %s (the violation is reported without a failing input)\n", replaySpent.Round(time.Second))
+		return path, false
+	}
+	t0 := time.Now()
+	defer func() { replaySpent += time.Since(t0) }()
 	rp := &replayer{p: p, o: o, imports: map[string]string{}, cache: map[string]string{}}
 	rp.pkg = fn.Pkg.Pkg
 	for _, s := range solvers(20) {
@@ -141,6 +152,14 @@ func (rp *replayer) getValues(terms []string) map[string]string {
 		}
 	}
 	if len(need) == 0 {
+		return out
+	}
+	if rp.started.IsZero() {
+		rp.started = time.Now()
+	}
+	rp.calls++
+	if rp.calls > 60 || time.Since(rp.started) > 90*time.Second {
+		rp.fail = "replay given up: the model needs too many queries to be read back (a very large value)"
 		return out
 	}
 	dir, _ := os.MkdirTemp("", "govc-replay")
